@@ -245,7 +245,7 @@ func (vc *VC) arrayBlit(st *State, es, base, dOff, src, sOff, n string) string {
 	a := vc.fresh("blit", "(Array Int "+es+")")
 	vc.assume(st, fmt.Sprintf("(forall ((k Int)) (! (= (select %s k) (ite (and (<= %s k) (< k (+ %s %s))) (select %s (+ (- k %s) %s)) (select %s k))) :pattern ((select %s k))))",
 		a, dOff, dOff, n, src, dOff, sOff, base, a))
-	vc.sumFacts(st, es, func(ps func(a, n string) string, f string) []string {
+	vc.sumFacts(st, es, func(ps func(a, n string) string, fv func(v string) string) []string {
 		return []string{
 			fmt.Sprintf("(=> (>= %s 0) (= %s %s))", dOff, ps(a, dOff), ps(base, dOff)),
 			fmt.Sprintf("(=> (and (>= %s 0) (>= %s 0) (>= %s 0)) (= %s (+ %s (- %s %s))))", dOff, n, sOff, ps(a, fmt.Sprintf("(+ %s %s)", dOff, n)), ps(a, dOff), ps(src, fmt.Sprintf("(+ %s %s)", sOff, n)), ps(src, sOff)),
@@ -288,10 +288,10 @@ func (vc *VC) evalAppend(st *State, c *ast.CallExpr) Val {
 	}
 	if n > 0 {
 		narr = vc.define("app", "(Array Int "+es+")", narr)
-		vc.sumFacts(st, es, func(ps func(a, n string) string, f string) []string {
+		vc.sumFacts(st, es, func(ps func(a, n string) string, fv func(v string) string) []string {
 			tot := ps(arr, ln)
 			for _, v := range appended {
-				tot = fmt.Sprintf("(+ %s (uf_%s %s))", tot, f, v)
+				tot = fmt.Sprintf("(+ %s %s)", tot, fv(v))
 			}
 			return []string{fmt.Sprintf("(= %s %s)", ps(narr, fmt.Sprintf("(+ %s %d)", ln, n)), tot), fmt.Sprintf("(= %s %s)", ps(narr, ln), ps(arr, ln))}
 		})
